@@ -1461,6 +1461,37 @@ combo("R6-1-success-keeps-desired", ["C08", "C01"], "the generic CAS helper does
                     forget(desired);
                     let rc = Rc::from_raw(expected_raw);""", """                    let rc = Rc::from_raw(expected_raw);""")], ["OWN-BALANCE"])
 
+QF2 = "src/ebr_impl/sync/queue.rs"
+GF = "src/ebr_impl/guard.rs"
+combo("R9-3-defers-dispose", ["C04", "C05"], "decrement_strong defers dispose instead of try_destruct through the free-function wrapper", "R9-3",
+      [ed(U, "defer_with_inner(guard, ptr, |inner| Self::try_destruct(inner));", "defer_with_inner(guard, ptr, |inner| dispose(inner));")],
+      ["CW-DESTRUCT-ONCE", "CW-ZERO-DEFERS"])
+combo("R9-3-direct-call", ["C01", "C02", "C13"], "the cap arm of the cascade calls try_destruct directly instead of deferring it", "R9-3",
+      [ed(U, """        defer_with_inner(guard, rc, |rc| RcInner::try_destruct(rc));
+        return;""", """        RcInner::try_destruct(rc);
+        return;""")], ["CW-DEFERRED-ONLY", "REC-DEPTH-GUARD", "CW-CASCADE-DECISION", "REC-IMMEDIATE"])
+combo("R11-2-stall-ignored", ["C18", "C13"], "the `any` closure treats a stalled item as harmless", "R11-2",
+      [ed(I, "Err(IterError::Stalled) => true,", "Err(IterError::Stalled) => false,")], ["EBR-ADVANCE"])
+combo("R12-1-returns-on-lost-race", ["C17", "C15"], "push returns when the linking CAS lost the race", "R12-1",
+      [ed(QF2, """                PushAttempt::Linked => return,
+                PushAttempt::TailLagged | PushAttempt::LostRace => {}""", """                PushAttempt::Linked | PushAttempt::LostRace => return,
+                PushAttempt::TailLagged => {}""")], ["EBR-QUEUE"])
+combo("R11-3-no-repin", ["C16"], "the RAII witness releases the handle without pinning again", "R11-3",
+      [ed(GF, "                mem::forget(local.pin());\n", "")], ["EBR-REACTIVATE"])
+combo("R9-1-step-1", ["C01", "C05"], "the tuple match adds 1 from zero", "R9-1",
+      [ed(U, "(false, 0) => 2,", "(false, 0) => 1,")], ["CW-TOKEN"])
+combo("R10-5-counted-from-weak", ["C01", "C05"], "the shared two-RMW helper with_new_count is called on a Weak's pointer", "R10-5",
+      [ed(S, "    fn with_new_count(ptr: Raw<T>) -> Self {", "    pub(crate) fn with_new_count(ptr: Raw<T>) -> Self {"),
+       ed(W, """        let Some(obj) = (unsafe { self.ptr.as_raw().as_ref() }) else {
+            return Some(Rc::from_raw(self.ptr));
+        };
+        if obj.try_increment_strong() {
+            return Some(Rc::from_raw(self.ptr));
+        }
+        None""", """        let rc = Rc::with_new_count(self.ptr);
+        if rc.is_null() || unsafe { self.ptr.deref() }.is_not_destructed() { Some(rc) } else { None }""")],
+      ["CW-SPLIT-INC-PROTECTED"])
+
 # behaviour-preserving refactorings written by sub-agents told to keep every interleaving's behaviour (selftest/refactors/)
 for f in sorted(glob.glob(os.path.join(HERE, "refactors", "*.diff"))):
     name = os.path.basename(f)[:-5]
